@@ -1066,7 +1066,10 @@ class Compiler:
                 return stmts
 
             def visit_TokenRef(self, node: TokenRef) -> ast.AST:
-                self.tokens.append((node.token.pos, len(node.token)))
+                self.tokens.append((
+                    node.token.pos, len(node.token),
+                    getattr(node.token, "source", None)
+                ))
                 assignment = ast.Assign(
                     [store("__token")],
                     ast.Constant(node.token.pos),
@@ -1076,9 +1079,11 @@ class Compiler:
                 return assignment
 
         generator = Generator(module)
+        # (positions refer to the text that was tokenized, which is not
+        # the template body when line endings have been normalized)
         tokens = [
-            Token(source[pos:pos + length], pos, source)
-            for pos, length in generator.tokens
+            Token((text or source)[pos:pos + length], pos, text or source)
+            for pos, length, text in generator.tokens
         ]
         token_map_def = "__tokens = {" + ", ".join("%d: %r" % (
             token.pos,
